@@ -827,7 +827,9 @@ class Gen:
                 if not self.customs or rng.random() < 0.5:
                     self.customs.append({"ident": rng.choice(["MyOp", "Inline_0__n0", "Inline_0__nw", "Abs",
                                                               "Loop_0_body__Inline_0__n0", "Introduce_0_id"]),
-                                         "domain": rng.choice(["custom.dom", "dom.a"])})
+                                         # (never a domain used for functions: a user-defined operator and a
+                                         #  function under one (domain, name) is the user's own collision)
+                                         "domain": rng.choice(["custom.dom", "custom.b"])})
                 stmts.append(["custom", rng.randrange(len(self.customs)), [self.pick(types, "f")]])
                 types.append("f")
             elif r < 0.40:
@@ -959,6 +961,14 @@ class Gen:
         rng = self.rng
         if self.models and rng.random() < 0.3:
             return rng.randrange(len(self.models))  # the same model inlined again
+        if self.feat.get("inline_spox_built", True) and rng.random() < 0.15:
+            # a model built by spox itself (its internals are named Add_0_C, Introduce_0_outputs_0, ...)
+            sub = Gen(rng, {"inline": False, "func": False, "if": rng.random() < 0.5, "loop": False, "init": False,
+                            "unused": False, "custom": False, "mixed": self.feat["mixed"], "rmax": False})
+            sspec = sub.gen_spec(size=rng.randrange(1, 4))
+            sspec["drop"] = False
+            self.models.append({"spec": sspec})
+            return len(self.models) - 1
         nin = rng.choice([1, 2])
         n = rng.randrange(1, 5)
         vals = [f"v{i}" for i in range(nin)]
